@@ -7,7 +7,7 @@ vars == <<phase, i, obs>>
 Init == phase = 0 /\ i \in 1..Len(CaseSeq) /\ obs = <<>>
 EvalCase(c) == IF "T" \in DOMAIN c
                THEN LET mg == Moved(c, c.T) IN [base |-> Normal(c), moved |-> Normal(mg), mverts |-> mg.verts, P |-> FrameP(c, c.T)]
-               ELSE Normal(c)
+               ELSE IF "gradOnly" \in DOMAIN c THEN GradOnly(c) ELSE Normal(c)
 Next == phase = 0 /\ phase' = 1 /\ i' = i /\ obs' = EvalCase(CaseSeq[i])
 Spec == Init /\ [][Next]_vars
 \* H is symmetric (design-level sanity of the accumulation)
